@@ -509,6 +509,36 @@ def gen_undecodable(rng, cat, R, M, per_file):
     return cases
 
 
+def gen_edge_types(rng, cat, R, M):
+    """files whose last / first / only accepted message has type 0 (MessageType.INVALID, which FileIndex also uses as its
+    end-of-file marker), an unregistered type, or a registered type without P1 time — with and without trailing junk,
+    between messages with and without P1 time"""
+    cases = []
+    timed = [c for c in cat if c[3] >= 0 and len(c[2]) + 24 <= M]
+    untimed = [c for c in cat if c[3] < 0 and len(c[2]) + 24 <= M]
+
+    def tm(sec):
+        c = timed[sec % len(timed)]
+        return F.msg(c[0], [['h', stamp_payload(c, sec, 0).hex()]], ver=c[1])
+
+    def ut(k):
+        c = untimed[k % len(untimed)]
+        return F.msg(c[0], [['h', c[2].hex()]], ver=c[1])
+    specials = [F.msg(0, []), F.msg(0, [['z', 8, 1]]), F.msg(20000, [['z', 4, 2]]), F.msg(65535, []), ut(0), ut(3),
+                F.msg(timed[0][0], [], ver=timed[0][1])]
+    for i, sp in enumerate(specials):
+        for junk in ([], [['z', 5, 0]], [['r', 40 + i, 30]]):
+            cases.append({'kind': 'edge-type:only', 'recipe': [sp] + junk})
+            cases.append({'kind': 'edge-type:last', 'recipe': [tm(10 + i), ut(i), ['z', 3, 0], tm(20 + i), F.msg(20001, [['z', 2, 0]]), sp] + junk})
+            cases.append({'kind': 'edge-type:first', 'recipe': junk + [sp, tm(30 + i), ut(i + 1), tm(31 + i)]})
+        cases.append({'kind': 'edge-type:middle', 'recipe': [tm(1), sp, ut(i), tm(2)]})
+        cases.append({'kind': 'edge-type:all-untimed-last', 'recipe': [ut(i), F.msg(20000, []), sp]})
+    # the same at the end of a multi-block file
+    for i, sp in enumerate(specials[:4]):
+        cases.append({'kind': 'edge-type:last-multiblock', 'recipe': [tm(5), ['z', R + 17 + i, 0], ut(i), ['r', 7 + i, R // 2], tm(6), sp]})
+    return cases
+
+
 def gen_mix(rng, cat, R, M, count, maxblocks):
     cases = []
     for n in range(count):
@@ -573,6 +603,7 @@ def gen_small_exhaustive(rng, cat, quick):
         cases.append({'kind': 'small:multi', 'recipe': layout(items, fs, ('z', 0) if n % 2 else ('r', 9000 + n))})
     cases += [dict(c, kind='small:' + c['kind']) for c in gen_overlap(rng, cat, R, M, 150 if quick else 1500)]
     cases += [dict(c, kind='small:' + c['kind']) for c in gen_nested(rng, cat, R, M, 60 if quick else 600)]
+    cases += [dict(c, kind='small:' + c['kind']) for c in gen_edge_types(rng, cat, R, M)]
     cases += [dict(c, kind='small:' + c['kind']) for c in gen_undecodable(rng, cat, R, M, 60)]
     cases += [dict(c, kind='small:' + c['kind']) for c in gen_periodic(rng, cat, R, M, quick)]
     cases += [dict(c, kind='small:' + c['kind']) for c in gen_tails(rng, cat, R, M)]
@@ -587,6 +618,13 @@ def gen_small_exhaustive(rng, cat, quick):
 # ------------------------------------------------------------------------------------------------------
 # evaluation
 # ------------------------------------------------------------------------------------------------------
+def path_name(w):
+    if w.startswith('save:'):
+        return 'fast_generate_index(save_index=True, num_threads=%s)' % w[5:]
+    return {'load': 'second fast_generate_index() call loading the saved .p1i', 'reader': 'MixedLogReader(path).get_index()',
+            'reader-again': 'second MixedLogReader(path).get_index() (index file on disk)'}.get(w, 'fast_generate_index(save_index=False, num_threads=%s)' % w)
+
+
 def same_run(a, b):
     if isinstance(a, dict) or isinstance(b, dict):
         return isinstance(a, dict) and isinstance(b, dict) and a.get('raise') is not None and a.get('raise') == b.get('raise')
@@ -606,24 +644,42 @@ def evaluate(ctx, case, res, mdl, report=True):
         return [], 'extracted model/spec failed: %s' % mdl['error']
     runs = res['runs']
     ok_ws = [w for w in runs if not isinstance(runs[w], dict)]
+    last_save = [k for k in runs if k.startswith('save:')]
     for w, impl in runs.items():
-        m = mdl['runs'].get(w)
+        # the model run an index obtained through another public path corresponds to (same worker count)
+        mk = w
+        if w.startswith('save:'):
+            mk = w[5:]
+        elif w == 'load':
+            mk = last_save[-1][5:] if last_save else None
+        elif w.startswith('reader'):
+            mk = str(res.get('cpu_count'))
+        if mk != w and mk not in mdl['runs']:
+            m = mdl['runs'].get('1') if small else None     # under the precondition the model is the same for every W
+            if m is None:
+                m = impl
+        else:
+            m = mdl['runs'].get(mk)
         if isinstance(impl, dict):
             viols.append(({'class': 'raises', 'exc': impl['raise'], 'what': re.sub(r'\d{4,}', 'N', impl.get('msg', ''))[:60], 'consts': cname},
-                          'fast_generate_index(num_threads=%s) raised %s: %s on %s' % (w, impl['raise'], impl.get('msg', ''), F.describe(case['recipe']))))
+                          'index via %s raised %s: %s on %s' % (path_name(w), impl['raise'], impl.get('msg', ''), F.describe(case['recipe']))))
         else:
             bad = [e for e in impl if e[2] not in cands]
             if bad:
                 viols.append(({'class': 'entry-not-crc-valid', 'consts': cname},
-                              'index entry at offset %d (num_threads=%s) is not a complete CRC-valid message of the file: %s' % (bad[0][2], w, F.describe(case['recipe']))))
+                              'index entry at offset %d (%s) is not a complete CRC-valid message of the file: %s' % (bad[0][2], path_name(w), F.describe(case['recipe']))))
             elif small and impl != spec:
                 cls, off = diff_class(impl, spec, cands)
                 dep = 'worker-count-dependent' if any(runs[x] == spec for x in ok_ws) else 'all-worker-counts'
                 sig = {'class': cls, 'workers': dep, 'consts': cname}
+                if not w.isdigit():
+                    sig['path'] = w.split(':')[0]
+                    if isinstance(runs.get('1'), list) and runs['1'] == spec:
+                        sig['plain_path_ok'] = True
                 if cls == 'missing-entry' and off is not None:
                     sig['lost_inside_crossing_candidate'] = inside_crossing_candidate(off, spec, cands)
-                viols.append((sig, 'num_threads=%s: index differs from the sequential scan (%s at offset %s; %d entries vs %d expected) on %s'
-                              % (w, cls, off, len(impl), len(spec), F.describe(case['recipe']))))
+                viols.append((sig, '%s: index differs from the sequential scan (%s at offset %s; %d entries vs %d expected) on %s'
+                              % (path_name(w), cls, off, len(impl), len(spec), F.describe(case['recipe']))))
         if m is None or (isinstance(m, dict) and 'error' in m):
             corr = corr or 'extracted model failed for num_threads=%s: %r' % (w, m)
         elif not same_run(impl, m):
@@ -729,6 +785,7 @@ def run(ctx):
     real += gen_tiny(rng)
     real += gen_stamps(rng, cat)
     real += gen_short_payload(rng, cat)
+    real += gen_edge_types(rng, cat, R, M)
     real += gen_undecodable(rng, cat, R, M, 120)
     real += gen_periodic(rng, cat, R, M, quick)
     real += gen_trunc(rng, cat, R, M)
@@ -748,6 +805,13 @@ def run(ctx):
         # small-constant files have at most a handful of blocks: 16 workers (mostly idle ones) on every fourth case
         c['threads'] = THREADS if (not c.get('consts') or i % 4 == 0) else THREADS[:-1]
         c['legacy_view'] = legacy_view
+        # every public way to obtain the index (saved, loaded, through MixedLogReader): all edge-type / corpus / tiny /
+        # stamp / tail / truncation / undecodable-payload files, every third other real-constant and every eighth small-constant file
+        k0 = c['kind'].split(':')[0]
+        if 'edge-type' in c['kind'] or k0 in ('corpus', 'tiny', 'stamp', 'short-payload', 'tail', 'trunc-eof', 'undecodable') \
+                or (not c.get('consts') and i % 3 == 0) or (c.get('consts') and i % 8 == 0):
+            c['paths'] = [1, 3]
+            c['threads'] = THREADS
         c['real_consts'] = [R, M]
         c.setdefault('consts', None)
     ctx.log('%d cases (%d corpus, %d real constants, %d small constants)' % (len(cases), ncorpus, nreal - ncorpus, len(cases) - nreal))
@@ -789,13 +853,13 @@ def run(ctx):
         ctx.broken_correspondence(first_corr[0], first_corr[1])
 
     ctx.coverage['rule'] = (
-        'Every case is a whole log file indexed with num_threads in {1,2,3,5,16}; the five full index arrays (time, type, offset, message_index) '
+        'Every case is a whole log file indexed with num_threads in {1,2,3,5,16} (save_index=False); all edge-type, corpus, tiny, stamp, tail, truncated and undecodable-payload files, every third other real-constant file and every eighth small-constant file are also indexed through the other public paths: fast_generate_index(save_index=True) with 1 and 3 workers, a second call that loads the saved .p1i, MixedLogReader(path).get_index() with default arguments without and then with an index file on disk; every returned index (time, type, offset, message_index) must be the same. The full index arrays '
         'are compared with the extracted MODEL run with the same constants and, when every CRC-valid candidate of the file is <= MAX (the '
         'property\'s precondition), with the extracted SPEC; independently of the precondition every entry must be a complete CRC-valid message '
         'and no call may raise. MAIN run, real constants READ=%d MAX=%d: files of 1-6 blocks with messages / sync words whose start or end is at '
         'k*READ+d and k*READ+MAX+d for d in [-25,25] (%s), tails 0..MAX+25 and READ-1 after 0-2 blocks, 0..29-byte files, messages cut by EOF, period-READ repetition (a block-sized chunk repeated, the file ending in a copy cut inside a message whose missing bytes sit exactly READ earlier; straddling messages whose continuation differs per period), '
         'CRC-of-truncated-slice headers at EOF and at the end of a read buffer, wrappers with nested messages across boundaries, the #15 overlap '
-        'construct, stamps around 2^32 s and rounding, for EVERY registered message type CRC-valid messages with empty / too short / garbage payloads (struct-based, construct-based and non-packable classes) in ordinary positions and across block boundaries, messages > MAX and > 65535 B, random mixes of all %d '
+        'construct, stamps around 2^32 s and rounding, files whose only / first / last accepted message has type 0 (MessageType.INVALID, also the end-of-file marker of FileIndex), an unregistered type or no P1 time, with and without trailing junk, for EVERY registered message type CRC-valid messages with empty / too short / garbage payloads (struct-based, construct-based and non-packable classes) in ordinary positions and across block boundaries, messages > MAX and > 65535 B, random mixes of all %d '
         'packable classes with junk, false syncs, corrupt CRCs, non-zero reserved bytes. SUPPORTING run (module constants patched to READ=64, MAX=48 '
         'in the harness process; workers are forked so they inherit them — checked): one message of size 24/25/40/48 at every offset of files around '
         'every block and overlap boundary (%s), random multi-message files, the same overlap/nested/tail/truncation/boundary families. '
